@@ -159,7 +159,7 @@ pub fn k_histories(sizes: &[usize], tmax: usize) -> Vec<Vec<String>> {
 pub fn s_histories(nr: usize) -> Vec<Vec<String>> {
     let mut out = vec![];
     for ri in 0..nr {
-        for k in [1usize, 2, 3, 4, 5, 6, 8, 9, 12] {
+        for k in [1usize, 2, 3, 4, 5, 6, 8, 9, 12, 16, 17, 20, 33] {
             let mut h: Vec<String> = (0..k).map(|i| format!("Ins(r{ri},{})", i % 4)).collect();
             for t in 0..=4 {
                 h.push(format!("Q(r0,{t},all)"));
@@ -192,7 +192,7 @@ pub fn s_histories(nr: usize) -> Vec<Vec<String>> {
     }
     for ra in 0..nr {
         for rb in 0..nr {
-            for n in [3usize, 4, 5, 8] {
+            for n in [3usize, 4, 5, 8, 16, 17, 20, 33] {
                 let mut h: Vec<String> = (0..n).map(|i| format!("Ins(r{ra},{})", 1 + i % 3)).collect();
                 h.push("Q(r0,1,all)".into());
                 h.push(format!("Ins(r{rb},3)"));
